@@ -28,5 +28,13 @@ VARIANTS = [
     dict(id="c09-repair-counts-resampled", property="C09", kind="repair", expect_gone="R09.2", file=DD,
          old="            temperature_features[\"temperature_null\"] = temp_series.isnull().astype(int)\n            temperature_features[\"temperature_not_null\"] = temp_series.notnull().astype(\n                int\n            )",
          new="            temperature_features[\"temperature_null\"] = temp_series.isnull().astype(int).resample(\"D\").sum()\n            temperature_features[\"temperature_not_null\"] = temp_series.notnull().astype(int).resample(\"D\").sum()"),
+    dict(id="c09-daily-mask-widened-by-median-rule", property="C09", kind="break", expect_rule="R09.3", file=DD,
+         old="                ) <= 0.5\n\n                # Set high frequency temperature data with more than 50% data missing as NaN",
+         new="                ) <= 0.5\n                invalid_temperature_rows |= temperature_features.temperature_not_null <= 12\n\n                # Set high frequency temperature data with more than 50% data missing as NaN"),
+    dict(id="c09-daily-blank-selector-widened", property="C09", kind="break", expect_rule="R09.3", file=DD,
+         old="                    temperature_features.loc[\n                        invalid_temperature_rows, \"temperature_mean\"\n                    ] = np.nan",
+         new="                    temperature_features.loc[\n                        invalid_temperature_rows | (temperature_features.temperature_null > 0), \"temperature_mean\"\n                    ] = np.nan"),
+    dict(id="c09-repair-billing-median-rule-removed", property="C09", kind="repair", expect_gone="R09.3", file=BD,
+         old="                invalid_temperature_rows |= (\n                    temperature_features.temperature_not_null <= median_samples * 0.5\n                )\n", new=""),
     dict(id="c09-benign-comment", property="C09", kind="benign", file=DD, old="            temperature_features[\"n_days_kept\"] = 0  # unused", new="            temperature_features[\"n_days_kept\"] = 0  # not used downstream"),
 ]
